@@ -450,6 +450,22 @@ def _shape_switch(fn, defs, bi, stack):
     if op.get("c") not in ("copy", "move") or op["pl"]["p"]:
         return False
     ds = defs.get(op["pl"]["l"], [])
+    # `let long_chain = matches!(..); if !long_chain { return }`: a copy or the negation of a shape test is a shape test
+    for _ in range(4):
+        nxt = None
+        if len(ds) == 1 and ds[0][1] != "term":
+            d = ds[0][2]
+            if d["k"] == "un" and d.get("op") == "Not" and d["a"].get("c") in ("copy", "move") and not d["a"]["pl"]["p"]:
+                nxt = d["a"]
+            elif d["k"] == "use" and d["op"].get("c") in ("copy", "move") and not d["op"]["pl"]["p"]:
+                nxt = d["op"]
+        if nxt is not None:
+            op = nxt
+            if _derives_from_self(fn, defs, op, set()):
+                return True
+            ds = defs.get(op["pl"]["l"], [])
+        else:
+            break
     if not ds or not all(si != "term" and d["k"] == "use" and d["op"].get("c") == "const" for (_b, si, d) in ds):
         return False
     def_blocks = {b for (b, _si, _d) in ds}
